@@ -89,30 +89,38 @@ structure FState where
   queue : List (Nat × Nat × String)
   toRemove : List Nat
 
+/-- `_bring_to_top(instance)`: take the child with identifier `c'.id` out of definition `q` and append
+    the renamed record `c'` to the top definition -/
+def moveInst (d : Design) (q : Nat) (c' : Inst) (ctr1 : Nat) : Design :=
+  let Q' := { d.defs q with children := (d.defs q).children.filter (fun x => x.id != c'.id) }
+  let d1 := { d with ctr := ctr1 }.setDef q Q'
+  let T1 := d1.defs d.top
+  d1.setDef d.top { T1 with children := T1.children ++ [c'] }
+
+/-- the non-leaf part of the loop body for instance `iid` (already in the top definition under the
+    name `nm`) whose reference is `x`: bring the cables of `x` to top, redo the connections of every
+    port pin -/
+def dissolve (d : Design) (iid : Nat) (nm : String) (x : Nat) : Design :=
+  let D := d.defs x
+  let lc := liftCables iid nm d.ctr D.cables
+  let d3 := { d with ctr := lc.2 }.setDef x { D with cables := [] }
+  let T3 := d3.defs d.top
+  let cs := (portBits D.ports).foldl (redoPin iid) (T3.cables ++ lc.1)
+  d3.setDef d.top { T3 with cables := cs }
+
 /-- one iteration of the `while` loop for the queue head `(q, iid, pn)` -/
 def fStep (d : Design) (q iid : Nat) (pn : String) : Design × List (Nat × Nat × String) × List Nat :=
   match (d.defs q).children.find? (fun c => c.id == iid) with
   | none => (d, [], [])
   | some c =>
-    let (c', ctr1) := liftInst pn d.ctr c
-    let t := d.top
-    -- remove from the parent, append to top
-    let Q' := { d.defs q with children := (d.defs q).children.filter (fun x => x.id != iid) }
-    let d1 := { d with ctr := ctr1 }.setDef q Q'
-    let T1 := d1.defs t
-    let d2 := d1.setDef t { T1 with children := T1.children ++ [c'] }
+    let li := liftInst pn d.ctr c
+    let d2 := moveInst d q li.1 li.2
     let x := c.ref
     let D := d2.defs x
     if D.isLeaf then (d2, [], [])
     else
-      let nm := c'.name.getD ""
-      let push := D.children.map (fun k => (x, k.id, nm))
-      let (lifted, ctr2) := liftCables iid nm d2.ctr D.cables
-      let d3 := { d2 with ctr := ctr2 }.setDef x { D with cables := [] }
-      let T3 := d3.defs t
-      let cs := (portBits D.ports).foldl (redoPin iid) (T3.cables ++ lifted)
-      let d4 := d3.setDef t { T3 with cables := cs }
-      (d4, push, [iid])
+      let nm := li.1.name.getD ""
+      (dissolve d2 iid nm x, D.children.map (fun k => (x, k.id, nm)), [iid])
 
 def fLoop : Nat → FState → FState
   | 0, s => s
